@@ -44,6 +44,29 @@ impl Ctx {
         }
         true
     }
+    /// several statements in one transaction (execute_batch)
+    fn run_batch(&mut self, sts: &[Stmt]) -> bool {
+        let sqls: Vec<String> = sts.iter().map(|s| s.sql()).collect();
+        let refs: Vec<&str> = sqls.iter().map(|s| s.as_str()).collect();
+        let r = self.db.batch(&refs);
+        self.setup.push(format!("@batch {}", sqls.join(";;")));
+        match r {
+            Ok(outs) => {
+                for (st, o) in sts.iter().zip(outs.iter()) {
+                    let m = self.state.apply(st);
+                    if let Some(d) = compare(o, &m) {
+                        self.fail("history", &d.tag(), format!("batch {:?} => {}", sqls, o.show()), vec![]);
+                        return false;
+                    }
+                }
+                true
+            }
+            Err(e) => {
+                self.fail("history", "batch-failed", format!("batch {:?} => {}", sqls, e), vec![]);
+                false
+            }
+        }
+    }
     /// executes a select, compares with the model, returns the bag
     fn q(&mut self, s: &Select, what: &str) -> Option<(Vec<String>, String)> {
         let sql = s.sql(false);
@@ -113,6 +136,32 @@ pub fn run_case(r: &mut Rng) {
         if !cx.run(&extra) {
             return;
         }
+    }
+    // replace rows under the same key: DELETE + INSERT of one key inside one transaction, or as two transactions
+    if g.r.chance(1, 2) {
+        let live: Vec<i128> = cx.state.tables["t0"].rows.iter().filter_map(|r| r[0].as_i()).collect();
+        for _ in 0..g.r.range(1, 3) {
+            if live.is_empty() {
+                break;
+            }
+            let key = *g.r.pick(&live);
+            let del = Stmt::Delete("t0".into(), Some(bin(Op::Eq, bin(Op::Add, col("id"), lit_i(0)), lit_i(key as i64))));
+            let ins = Stmt::Insert("t0".into(), None, vec![t.cols.iter().enumerate().map(|(i, c)| if i == 0 { Expr::Lit(V::I(key)) } else { Expr::Lit(g.value(c.ty, true)) }).collect()]);
+            if g.r.chance(2, 3) {
+                cx.atoms.push("hist.replace_in_one_txn".into());
+                report::count("replace_in_one_txn", 1);
+                if !cx.run_batch(&[del, ins]) {
+                    return;
+                }
+            } else {
+                report::count("replace_in_two_txns", 1);
+                if !cx.run(&del) || !cx.run(&ins) {
+                    return;
+                }
+            }
+        }
+        cx.atoms.sort();
+        cx.atoms.dedup();
     }
     let cx_state = cx.state.clone();
     let t_now = cx_state.tables["t0"].clone();
